@@ -79,6 +79,11 @@ def exec_case(case):
                 e["ret"] = [int(i) for i in tree.query_radius(np.array(ev["q"], dtype=float), math.sqrt(ev["m"] + 0.5))]
             except Exception as ex:
                 e["exc"], e["ret"] = type(ex).__name__, []
+        elif ev["op"] == "radius_int":          # an integer radius: points exactly on the sphere belong to the answer (documented: distance <= r)
+            try:
+                e["ret"] = [int(i) for i in tree.query_radius(np.array(ev["q"], dtype=float), float(ev["r"]))]
+            except Exception as ex:
+                e["exc"], e["ret"] = type(ex).__name__, []
         else:
             raise ValueError(ev["op"])
         events.append(e)
@@ -98,6 +103,16 @@ def _queries(rng, pts, nq):
             d2 = sorted(sum((a - b) ** 2 for a, b in zip(p, q)) for p in pts)
             m = rng.choice(d2) + rng.choice([-1, 0, 0, 1]) if rng.random() < 0.8 else rng.randint(0, 4 * (hi - lo) ** 2)
             evs.append({"op": "radius", "q": q, "m": max(0, m)})
+            # ... and a ball that touches a point exactly along one axis (tangent to the planes a k-d tree splits at)
+            p0 = rng.choice(pts)
+            a = rng.randrange(d)
+            r = rng.randint(0, 3)
+            q2 = list(p0)
+            q2[a] += rng.choice([-r, r])
+            for b in range(d):
+                if b != a and rng.random() < 0.3:
+                    q2[b] = p0[b]
+            evs.append({"op": "radius_int", "q": q2, "r": r})
     return evs
 
 
